@@ -28,11 +28,11 @@ let events_in (tok : string) (fields : Bytes.bytes list) : S.event list =
                   let p = !pos in
                   incr pos;
                   { S.e_pos = n_of_int p;
-                    e_link = (if has 'L' then Some (S.link_key_of_text (bytes_of_hex cells.(0))) else None);
+                    e_link = (if has 'L' then Some (S.link_key_of_text (if cells.(0) = "~" then S.null_text else bytes_of_hex cells.(0))) else None);
                     e_time = (if has 'T' && cells.(1) <> "n" then Some (z_of_string cells.(1)) else None);
                     e_fields = Stdlib.List.mapi (fun fi f -> (f, S.parse_i64 (bytes_of_hex cells.(2 + fi)))) fields
                                (* the link and time columns can be named in WHERE as well *)
-                               @ (if has 'L' then [([n_of_int 107], S.parse_i64 (bytes_of_hex cells.(0)))] else [])
+                               @ (if has 'L' then [([n_of_int 107], S.parse_i64 (if cells.(0) = "~" then S.null_text else bytes_of_hex cells.(0)))] else [])
                                @ (if has 'T' && cells.(1) <> "n" then [([n_of_int 116], Some (z_of_string cells.(1)))] else []) })
                 (split ';' rows))
       (split '/' tok)
@@ -77,15 +77,17 @@ let link_texts (tok : string) : Bytes.bytes list =
             let flags = Stdlib.String.sub z 0 i in
             let rows = Stdlib.String.sub z (i + 1) (Stdlib.String.length z - i - 1) in
             if rows = "" || not (Stdlib.String.contains flags 'L') then []
-            else lmap (fun r -> bytes_of_hex (Stdlib.List.hd (split ',' r))) (split ';' rows))
+            else lmap (fun r -> let c = Stdlib.List.hd (split ',' r) in if c = "~" then S.null_text else bytes_of_hex c) (split ';' rows))
       (split '/' tok)
 
 (* the KnownClass predicates of the Coq development evaluated on the case (for tools/props/c15.py
    classify; not part of the comparison with the implementation) *)
-let flags_out lk wh ta tb (la : S.event list) (lb : S.event list) (texts : Bytes.bytes list) : string =
+let flags_out lk wh ta tb da db absent (la : S.event list) (lb : S.event list) (texts : Bytes.bytes list) : string =
   let fl = ref [] in
+  (match wh with Some e when S.has_unprefixed_one_sided da db e -> fl := "UnprefixedFieldAppliedToBothTypes" :: !fl | _ -> ());
+  if absent then fl := "AbsentLinkGroupedAsNull" :: !fl;
   if lk = S.PrecededBy && Stdlib.List.exists S.preceded_blocked (S.make_groups la lb) then fl := "PrecededByBlockedByEarlyA" :: !fl;
-  if not (S.conjunctive_where wh ta tb) then fl := "CrossTypeOrNot" :: !fl;
+  if not (S.conjunctive_where da db wh ta tb) then fl := "CrossTypeOrNot" :: !fl;
   if Stdlib.List.exists (fun e -> not (S.time_ok e)) (la @ lb) then fl := "TimeNotU64Ordered" :: !fl;
   if Stdlib.List.exists (fun s -> Stdlib.List.exists (fun s' -> S.link_alias s s') texts) texts then fl := "LinkTextAliasesInteger" :: !fl;
   " #F:" ^ cat "," !fl
@@ -123,8 +125,12 @@ let run (t : string list) : string =
               la, lb, (lmap (fun e -> e.S.e_pos) la <> lmap (fun e -> e.S.e_pos) fa_ || lmap (fun e -> e.S.e_pos) lb <> lmap (fun e -> e.S.e_pos) fb_
                        || Stdlib.List.length la <> Stdlib.List.length pa || Stdlib.List.length lb <> Stdlib.List.length pb) in
       let extra = if eng then [u] else [] in
-      let fl = flags_out (link_in lk) wh ta tb la lb (link_texts za @ link_texts zb) ^ (if inexact then ",SubQueryInexact" else "") in
-      if S.where_ambiguous wh (k :: tt :: fa @ extra) (k :: tt :: fb @ extra) then "AMBIGUOUS" ^ fl
+      let da = k :: tt :: fa @ extra and db = k :: tt :: fb @ extra in
+      let contains_absent z = Stdlib.List.exists (fun zz -> Stdlib.List.exists (fun r -> Stdlib.String.length r > 0 && r.[0] = '~')
+                                                     (split ';' (match split ':' zz with [_; rows] -> rows | _ -> ""))) (split '/' z) in
+      let absent = contains_absent za || contains_absent zb in
+      let fl = flags_out (link_in lk) wh ta tb da db absent la lb (link_texts za @ link_texts zb) ^ (if inexact then ",SubQueryInexact" else "") in
+      if S.where_ambiguous wh da db then "AMBIGUOUS" ^ fl
       else groups_out limit (S.matcher_groups (link_in lk) wh ta tb la lb) ^ fl
   | _ -> "UNKNOWN_PROBE"
 
